@@ -102,6 +102,12 @@ pub trait Flavour: Sized + 'static {
     fn for_adapted(u: &Self::Node, dir: u8, style: u8, f: Step<Self::Node>);
 
     fn search(root: &Self::Node, spec: &SearchSpec, cb: Cb<Self::Node>) -> SearchOut<Self::Node>;
+    /// everything the `Path` API says about the result of a closure-free path or cycle search
+    /// (len, iter_nodes, iter_edges, first/last edge and node, indexing, to_vec_*), as text
+    fn path_info(root: &Self::Node, spec: &SearchSpec) -> Option<String>;
+    /// `Graph::default()`, and `Graph::with_capacity(c)` where the flavour has it
+    fn g_default() -> Self::Graph;
+    fn g_with_capacity(c: usize) -> Option<Self::Graph>;
 
     fn g_new() -> Self::Graph;
     fn g_insert(g: &mut Self::Graph, n: Self::Node) -> bool;
@@ -298,14 +304,47 @@ macro_rules! dot_attr_impl {
     };
 }
 
+macro_rules! describe_path {
+    ($p:expr) => {{
+        let p = $p;
+        let edge = |a: usize, b: usize, e: u64| format!("({a},{b},{e})");
+        let nodes: Vec<usize> = p.iter_nodes().map(|n| *n.key()).collect();
+        let edges: Vec<String> = p.iter_edges().map(|e| edge(*e.0.key(), *e.1.key(), (e.2).0)).collect();
+        let tv_nodes: Vec<usize> = p.to_vec_nodes().iter().map(|n| *n.key()).collect();
+        let tv_edges: Vec<String> = p.to_vec_edges().iter().map(|e| edge(*e.0.key(), *e.1.key(), (e.2).0)).collect();
+        let fe = p.first_edge().map(|e| edge(*e.0.key(), *e.1.key(), (e.2).0));
+        let le = p.last_edge().map(|e| edge(*e.0.key(), *e.1.key(), (e.2).0));
+        let fnode = p.first_node().map(|n| *n.key());
+        let lnode = p.last_node().map(|n| *n.key());
+        let idx0 = if p.len() > 1 { Some(edge(*p[0].0.key(), *p[0].1.key(), (p[0].2).0)) } else { None };
+        format!(
+            "len={} nodes={nodes:?} edges={edges:?} to_vec_nodes={tv_nodes:?} to_vec_edges={tv_edges:?} first_edge={fe:?} last_edge={le:?} first_node={fnode:?} last_node={lnode:?} [0]={idx0:?}",
+            p.len()
+        )
+    }};
+}
+
 macro_rules! edges_of {
     ($v:expr) => {
         $v.into_iter().map(|e| (e.0, e.1, e.2)).collect::<Vec<_>>()
     };
 }
 
+macro_rules! with_capacity_impl {
+    ($m:ident, yes) => {
+        fn g_with_capacity(c: usize) -> Option<Self::Graph> {
+            Some(gdsl::$m::Graph::with_capacity(c))
+        }
+    };
+    ($m:ident, no) => {
+        fn g_with_capacity(_c: usize) -> Option<Self::Graph> {
+            None
+        }
+    };
+}
+
 macro_rules! directed_flavour {
-    ($ty:ident, $m:ident, $name:expr, $sync:expr) => {
+    ($ty:ident, $m:ident, $name:expr, $sync:expr, $cap:tt) => {
         pub struct $ty;
         mod $m {
             use super::*;
@@ -469,6 +508,33 @@ macro_rules! directed_flavour {
                 }
             }
 
+            fn path_info(root: &Self::Node, spec: &SearchSpec) -> Option<String> {
+                let tk: Option<usize> = spec.target;
+                macro_rules! pi {
+                    ($b:expr) => {{
+                        let mut b = $b;
+                        if let Some(t) = &tk {
+                            b = b.target(t);
+                        }
+                        if spec.transpose {
+                            b = b.transpose();
+                        }
+                        let p = if spec.mode == SMode::Cycle { b.search_cycle() } else { b.search_path() };
+                        p.map(|p| describe_path!(p))
+                    }};
+                }
+                match spec.kind {
+                    SKind::Bfs => pi!(root.bfs()),
+                    SKind::Dfs => pi!(root.dfs()),
+                    SKind::PfsMin => pi!(root.pfs().min()),
+                    SKind::PfsMax => pi!(root.pfs().max()),
+                    _ => None,
+                }
+            }
+            fn g_default() -> Self::Graph {
+                Default::default()
+            }
+            with_capacity_impl!($m, $cap);
             common_graph_items!($m);
             dot_attr_impl!($m);
 
@@ -651,6 +717,32 @@ macro_rules! undirected_flavour {
                 }
             }
 
+            fn path_info(root: &Self::Node, spec: &SearchSpec) -> Option<String> {
+                let tk: Option<usize> = spec.target;
+                macro_rules! pi {
+                    ($b:expr) => {{
+                        let mut b = $b;
+                        if let Some(t) = &tk {
+                            b = b.target(t);
+                        }
+                        let p = if spec.mode == SMode::Cycle { b.search_cycle() } else { b.search_path() };
+                        p.map(|p| describe_path!(p))
+                    }};
+                }
+                match spec.kind {
+                    SKind::Bfs => pi!(root.bfs()),
+                    SKind::Dfs => pi!(root.dfs()),
+                    SKind::PfsMin => pi!(root.pfs().min()),
+                    SKind::PfsMax => pi!(root.pfs().max()),
+                    _ => None,
+                }
+            }
+            fn g_default() -> Self::Graph {
+                Default::default()
+            }
+            fn g_with_capacity(_c: usize) -> Option<Self::Graph> {
+                None
+            }
             common_graph_items!($m);
             undirected_dot_attr!($m, $dotattr);
 
@@ -681,8 +773,8 @@ macro_rules! undirected_dot_attr {
     };
 }
 
-directed_flavour!(Di, digraph, "digraph", false);
-directed_flavour!(SyncDi, sync_digraph, "sync_digraph", true);
+directed_flavour!(Di, digraph, "digraph", false, yes);
+directed_flavour!(SyncDi, sync_digraph, "sync_digraph", true, no);
 undirected_flavour!(Un, ungraph, "ungraph", false, yes);
 undirected_flavour!(SyncUn, sync_ungraph, "sync_ungraph", true, no);
 
